@@ -325,7 +325,7 @@ func (c *Campaign) Go() {
 		s := search.New(tt)
 		cs := &Case{Kind: "mixed", RootKind: kind, Start: root.Start.FEN(), Moves: root.MoveNames(), TTBytes: tt, Params: c.Params}
 		if rng.IntN(2) == 0 {
-			warmUp(s, cs, rng, tt, lcs[wk])
+			warmUp(s, cs, &root, rng, tt, lcs[wk])
 		}
 		if rng.IntN(3) == 0 || kind == "castle" || kind == "blocked-castle" {
 			cs.Poison = makePoison(rng, &root)
@@ -365,7 +365,7 @@ func (c *Campaign) Go() {
 		s := search.New(tt)
 		cs := &Case{Kind: "abort-sweep", RootKind: kind, Start: root.Start.FEN(), Moves: root.MoveNames(), TTBytes: tt, Params: c.Params}
 		if rng.IntN(3) == 0 {
-			warmUp(s, cs, rng, tt, lcs[wk])
+			warmUp(s, cs, &root, rng, tt, lcs[wk])
 		}
 		if rng.IntN(4) == 0 {
 			cs.Poison = makePoison(rng, &root)
@@ -397,8 +397,44 @@ func (c *Campaign) Go() {
 }
 
 // warmUp lets the engine search another position first (a PV-producing depth-4 search).
-func warmUp(s *search.Search, cs *Case, rng *rand.Rand, tt int, lc *ev.Local) {
+func warmUp(s *search.Search, cs *Case, root *Root, rng *rand.Rand, tt int, lc *ev.Local) {
 	fr, _ := RandomRoot(rng, "fresh")
+	if rng.IntN(2) == 0 || cs.RootKind == "locked" {
+		// a sibling of the root: the same position with one to three men removed. Its move lists
+		// have almost the same shape as the root's, so whatever per-slot state the search keeps
+		// between requests lines up with the root's own moves.
+		p := root.Pos
+		p.EP = -1
+		var men []int
+		for sq, v := range p.Sq {
+			if v != 0 && v != ref.K && v != -ref.K {
+				men = append(men, sq)
+			}
+		}
+		if cs.RootKind == "locked" {
+			// one enemy piece less: the root has exactly one capture more than its sibling
+			var pcs []int
+			for _, sq := range men {
+				if v := p.Sq[sq]; (v < -1 && p.White) || (v > 1 && !p.White) {
+					pcs = append(pcs, sq)
+				}
+			}
+			if len(pcs) > 0 {
+				men = pcs
+			}
+		}
+		for i := 1 + rng.IntN(2); i > 0 && len(men) > 0; i-- {
+			if cs.RootKind == "locked" {
+				i = 1
+			}
+			p.Sq[men[rng.IntN(len(men))]] = 0
+		}
+		if p.Valid() && p != root.Pos {
+			p.Half = 0
+			fr = NewRoot(p.Normalised(), nil)
+			lc.C["engines_warmed_up_on_a_sibling_of_the_root"]++
+		}
+	}
 	if fr.Final() {
 		return
 	}
